@@ -441,6 +441,8 @@ fn corrupt_contents(valid: &str) -> Vec<(String, Vec<u8>)> {
         ("nanos-huge".into(), valid.replacen("\"nanos_since_epoch\": 0", "\"nanos_since_epoch\": 4294967295", 1).into_bytes()),
         ("secs-huge".into(), valid.replacen("\"secs_since_epoch\": ", "\"secs_since_epoch\": 18446744073709551615, \"was\": ", 1).into_bytes()),
         ("non-utf8".into(), vec![0xff, 0xfe, 0x00, 0x7b, 0x80]),
+        ("secs-max".into(), valid.replacen("\"secs_since_epoch\": ", "\"secs_since_epoch\": 18446744073709551615, \"secs_since_epoch_was\": ", 1).into_bytes()),
+        ("last-seen-missing".into(), valid.replacen("\"last_seen\"", "\"last_seen_was\"", 1).into_bytes()),
         ("utf8-bom".into(), [b"\xef\xbb\xbf".to_vec(), valid.as_bytes().to_vec()].concat()),
         ("trailing-garbage".into(), [valid.as_bytes().to_vec(), b"}}".to_vec()].concat()),
         ("binary".into(), (0..=255u8).collect()),
